@@ -125,7 +125,8 @@ def origin(annotation: tp.Any) -> tp.Any:
     if not isbuiltintype(actual):
         actual = _check_generics(actual)
 
-    if iscallable(actual):
+    # A class which merely defines `__call__` is still that class.
+    if iscallable(actual) and (actual is abc_Callable or not inspect.isclass(actual)):
         actual = tp.Callable
 
     return actual
